@@ -110,6 +110,17 @@ def unit_kernel(name):
     if tw.status == "unsat":
       ctx.error("reachability twin unsat")
       return
+    if tw.status != "sat":
+      # undecided twin: a vacuous background would make 'race-free' trivially unsat -- retry once with a larger budget, and
+      # claim nothing for this kernel if it stays undecided
+      tw = ctx.session(bg, timeout_ms=120000).reach("twin:two-threads/retry", True)
+      ctx._rec(tw)
+      if tw.status == "unsat":
+        ctx.error("reachability twin unsat")
+        return
+      if tw.status != "sat":
+        ctx.notes.append(f"skipped: reachability twin of {name} undecided ({tw.status}); nothing claimed for this kernel")
+        return
     confl = []
     by_cell = {}
     for a in it2.accesses:
